@@ -79,7 +79,7 @@ type Schema struct {
 	SynTerms    []string   `json:"-"`
 	Vecs        []VecOpt   `json:"vecs,omitempty"`
 	BigValues   bool       `json:"big,omitempty"`
-	IDDV        bool       `json:"iddv,omitempty"` // the _id field carries doc values (consistent over the whole case)
+	IDDV        bool       `json:"iddv,omitempty"`   // the _id field carries doc values (consistent over the whole case)
 	WideDV      bool       `json:"wideDV,omitempty"` // doc-value option of the wide batches' field (consistent over the whole case)
 	nextID      int
 }
@@ -197,6 +197,17 @@ func (s *Schema) genTextField(t *rapid.T, fo *FieldOpt, label string, instance i
 				v[i] = byte(i*7 + i/251)
 			}
 			f.Value = v
+		} else if Chance(t, label+"medium", 22) {
+			// medium values around the varint-length boundaries of the stored record header
+			// (127/128/129, 255/256, 16383/16384 bytes), poorly compressible
+			n := rapid.SampledFrom([]int{127, 128, 129, 130, 200, 255, 256, 300, 16383, 16384, 16390}).Draw(t, label+"mediumLen")
+			v := make([]byte, n)
+			x := uint32(n)*2654435761 + uint32(len(label))
+			for i := range v {
+				x = x*1664525 + 1013904223
+				v[i] = byte(x >> 24)
+			}
+			f.Value = v
 		} else {
 			f.Value = rapid.SliceOfN(rapid.Byte(), 0, 12).Draw(t, label+"val")
 		}
@@ -226,10 +237,28 @@ func (s *Schema) genTextField(t *rapid.T, fo *FieldOpt, label string, instance i
 			for j := 0; j < nLocs; j++ {
 				ll := fmt.Sprintf("%sloc%d_%d", label, i, j)
 				start := rapid.IntRange(0, 200).Draw(t, ll+"s")
+				pos := rapid.IntRange(1, 50).Draw(t, ll+"p")
+				end := start + rapid.IntRange(0, 20).Draw(t, ll+"e")
+				if Chance(t, ll+"boundary", 12) {
+					// varint-length boundaries of the encoded location
+					bv := []int{127, 128, 129, 16383, 16384, 16385, 2097151, 2097152}
+					switch rapid.IntRange(0, 2).Draw(t, ll+"which") {
+					case 0:
+						pos = rapid.SampledFrom(bv).Draw(t, ll+"bp")
+					case 1:
+						start = rapid.SampledFrom(bv).Draw(t, ll+"bs")
+						end = start + rapid.IntRange(0, 3).Draw(t, ll+"be")
+					default:
+						end = rapid.SampledFrom(bv).Draw(t, ll+"bE")
+						if start > end {
+							start = end
+						}
+					}
+				}
 				tok.Locs = append(tok.Locs, spec.LocSpec{
-					Pos:   rapid.IntRange(1, 50).Draw(t, ll+"p"),
+					Pos:   pos,
 					Start: start,
-					End:   start + rapid.IntRange(0, 20).Draw(t, ll+"e"),
+					End:   end,
 					AP:    append([]uint64(nil), f.AP...),
 				})
 			}
@@ -277,7 +306,15 @@ func (s *Schema) NewID(t *rapid.T, label string) string {
 	s.nextID++
 	// ids sort in a non-monotone order relative to doc numbers
 	pfx := rapid.SampledFrom([]string{"d", "D", "é", "z", "0"}).Draw(t, label+"idp")
-	return fmt.Sprintf("%s%d", pfx, s.nextID)
+	id := fmt.Sprintf("%s%d", pfx, s.nextID)
+	if Chance(t, label+"longID", 6) {
+		// ids whose length sits on varint boundaries of the stored record's id-length field
+		n := rapid.SampledFrom([]int{127, 128, 129, 255, 256, 257, 384, 16384}).Draw(t, label+"idLen")
+		for len(id) < n {
+			id += "x"
+		}
+	}
+	return id
 }
 
 func (s *Schema) GenDoc(t *rapid.T, label string, id string) spec.DocSpec {
@@ -429,7 +466,8 @@ func (s *Schema) GenBatch(t *rapid.T, label string, o BatchOpts) *spec.BatchSpec
 // that postings lists exceed 1024 hits and modes 1025/1026 use several chunks.
 func GenWide(t *rapid.T, label string) *spec.WideSpec {
 	w := &spec.WideSpec{}
-	w.N = rapid.SampledFrom([]int{1023, 1024, 1025, 1100, 2047, 2048, 2049, 2300}).Draw(t, label+"N")
+	w.N = rapid.SampledFrom([]int{1023, 1024, 1025, 1100, 2047, 2048, 2049, 2300, 600, 1000}).Draw(t, label+"N")
+	w.Multi = Chance(t, label+"Multi", 25)
 	w.Period = rapid.SampledFrom([]int{0, 1, 2, 7, 1000}).Draw(t, label+"Period")
 	w.Every = rapid.SampledFrom([]int{0, 1, 2, 3, 500}).Draw(t, label+"Every")
 	w.Locs = rapid.Bool().Draw(t, label+"Locs")
